@@ -1,2 +1,52 @@
-(* placeholder until the token-level transparency corollary of C01 lands *)
-Example C15_placeholder : True. Proof. exact I. Qed.
+(* Properties_C15.v — C15: comments are transparent.
+   Stated on the reference meaning (coq/Grammar.v): a comment token contributes nothing, wherever it is
+   inserted.  The parser model is tied to that meaning by the C01 refinement and, for this property, by the
+   metamorphic run on the library (every token boundary x every comment form x annotations on/off) and the
+   annotation scenarios (attach, trim, print, re-read). *)
+From Coq Require Import List Arith NArith ZArith Bool.
+From Coq.Strings Require Import Byte.
+From LC Require Import Bytes Consts Conv Flex LexAct Lexer Files Store Grammar.
+Import ListNotations.
+
+Definition is_comment (t : ltok) : bool := match lt_tok t with TComment => true | _ => false end.
+
+Lemma gtoks_app a b : gtoks (a ++ b) = gtoks a ++ gtoks b.
+Proof. unfold gtoks. apply flat_map_app. Qed.
+
+Lemma gtoks_comment t : is_comment t = true -> gtoks [t] = [].
+Proof. unfold gtoks, gtok_of, is_comment. cbn. destruct (lt_tok t); try discriminate; reflexivity. Qed.
+
+(* removing all comment tokens does not change the grammar tokens *)
+Lemma gtoks_filter ts : gtoks (filter (fun t => negb (is_comment t)) ts) = gtoks ts.
+Proof.
+  induction ts as [|t ts IH]; [reflexivity|]. cbn [filter].
+  change (t :: ts) with ([t] ++ ts). rewrite (gtoks_app [t] ts).
+  destruct (is_comment t) eqn:E; cbn [negb].
+  - rewrite (gtoks_comment t E). exact IH.
+  - change (t :: filter (fun t0 => negb (is_comment t0)) ts) with ([t] ++ filter (fun t0 => negb (is_comment t0)) ts).
+    rewrite gtoks_app, IH. reflexivity.
+Qed.
+
+(* A comment of any style lexes to one TComment token (C03/C06 scanner theorems and the differential run);
+   inserting such tokens anywhere, any number of them, leaves the meaning of the text unchanged —
+   acceptance and every resulting value. *)
+Theorem C15_comments_contribute_nothing :
+  forall strtod_o c ts1 cm ts2, is_comment cm = true ->
+  text_meaning strtod_o c (ts1 ++ cm :: ts2) = text_meaning strtod_o c (ts1 ++ ts2).
+Proof.
+  intros sd c ts1 cm ts2 H. unfold text_meaning.
+  change (cm :: ts2) with ([cm] ++ ts2). rewrite !gtoks_app, (gtoks_comment cm H). reflexivity.
+Qed.
+Print Assumptions C15_comments_contribute_nothing.
+
+Theorem C15_meaning_of_comment_free_text :
+  forall strtod_o c ts, text_meaning strtod_o c ts = text_meaning strtod_o c (filter (fun t => negb (is_comment t)) ts).
+Proof. intros sd c ts. unfold text_meaning. rewrite gtoks_filter. reflexivity. Qed.
+Print Assumptions C15_meaning_of_comment_free_text.
+
+Example C15_example :
+  let cm := {| lt_tok := TComment; lt_val := Some [x63]; lt_line := 1 |} in
+  let a := {| lt_tok := TStr; lt_val := Some [x69]; lt_line := 1 |} in
+  let e := {| lt_tok := TPunct 61; lt_val := Some [x3d]; lt_line := 1 |} in
+  gtoks [a; cm; e; cm; cm; a] = gtoks [a; e; a] /\ is_comment cm = true.
+Proof. vm_compute. split; reflexivity. Qed.
